@@ -4,14 +4,14 @@ namespace XpmVerif.Ident
 open List
 
 /-- two argument lists that are pointwise "stream-equivalent": same names, same contribution. -/
-inductive ArgsRel (cfg : Nat → List Nat) (mt mt' : Nat → Option Bool) : List Arg → List Arg → Prop
-  | nil : ArgsRel cfg mt mt' [] []
-  | cons {a a' l l'} : a.name = a'.name → argStream cfg mt a = argStream cfg mt' a' →
-      ArgsRel cfg mt mt' l l' → ArgsRel cfg mt mt' (a :: l) (a' :: l')
+inductive ArgsRel (cfg : Nat → List Nat) (ceq : Nat → Nat → Bool) (mt mt' : Nat → Option Bool) : List Arg → List Arg → Prop
+  | nil : ArgsRel cfg ceq mt mt' [] []
+  | cons {a a' l l'} : a.name = a'.name → argStream cfg ceq mt a = argStream cfg ceq mt' a' →
+      ArgsRel cfg ceq mt mt' l l' → ArgsRel cfg ceq mt mt' (a :: l) (a' :: l')
 
-theorem ArgsRel.insertBy {cfg mt mt'} {x x' : Arg} {l l' : List Arg}
-    (hn : x.name = x'.name) (hs : argStream cfg mt x = argStream cfg mt' x') (h : ArgsRel cfg mt mt' l l') :
-    ArgsRel cfg mt mt' (insertBy (fun a b => bytesLe a.name b.name) x l) (insertBy (fun a b => bytesLe a.name b.name) x' l') := by
+theorem ArgsRel.insertBy {cfg ceq mt mt'} {x x' : Arg} {l l' : List Arg}
+    (hn : x.name = x'.name) (hs : argStream cfg ceq mt x = argStream cfg ceq mt' x') (h : ArgsRel cfg ceq mt mt' l l') :
+    ArgsRel cfg ceq mt mt' (insertBy (fun a b => bytesLe a.name b.name) x l) (insertBy (fun a b => bytesLe a.name b.name) x' l') := by
   induction h with
   | nil => exact .cons hn hs .nil
   | cons hn1 hs1 _ ih =>
@@ -20,32 +20,32 @@ theorem ArgsRel.insertBy {cfg mt mt'} {x x' : Arg} {l l' : List Arg}
     · exact .cons hn1 hs1 ih
     · exact .cons hn hs (.cons hn1 hs1 (by assumption))
 
-theorem ArgsRel.sortBy {cfg mt mt'} {l l' : List Arg} (h : ArgsRel cfg mt mt' l l') :
-    ArgsRel cfg mt mt' (sortBy (fun a b => bytesLe a.name b.name) l) (sortBy (fun a b => bytesLe a.name b.name) l') := by
+theorem ArgsRel.sortBy {cfg ceq mt mt'} {l l' : List Arg} (h : ArgsRel cfg ceq mt mt' l l') :
+    ArgsRel cfg ceq mt mt' (sortBy (fun a b => bytesLe a.name b.name) l) (sortBy (fun a b => bytesLe a.name b.name) l') := by
   induction h with
   | nil => exact .nil
   | cons hn hs _ ih => simp only [XpmVerif.Ident.sortBy, foldr_cons] at *; exact ArgsRel.insertBy hn hs ih
 
-theorem ArgsRel.streams {cfg mt mt'} {l l' : List Arg} (h : ArgsRel cfg mt mt' l l') :
-    (l.map (argStream cfg mt)).flatten = (l'.map (argStream cfg mt')).flatten := by
+theorem ArgsRel.streams {cfg ceq mt mt'} {l l' : List Arg} (h : ArgsRel cfg ceq mt mt' l l') :
+    (l.map (argStream cfg ceq mt)).flatten = (l'.map (argStream cfg ceq mt')).flatten := by
   induction h with
   | nil => rfl
   | cons _ hs _ ih => simp [hs, ih]
 
-theorem ArgsRel.refl (cfg mt) : ∀ l : List Arg, ArgsRel cfg mt mt l l
+theorem ArgsRel.refl (cfg ceq mt) : ∀ l : List Arg, ArgsRel cfg ceq mt mt l l
   | [] => .nil
-  | _ :: l => .cons rfl rfl (ArgsRel.refl cfg mt l)
+  | _ :: l => .cons rfl rfl (ArgsRel.refl cfg ceq mt l)
 
 /-- **node-level congruence**: same type identifier, same producing task, pointwise
     stream-equivalent arguments ⇒ same stream. -/
-theorem nodeStream_congr_args (cfg : Nat → List Nat) (mt mt' : Nat → Option Bool) (self : Nat) (nd nd' : Node)
-    (ht : nd.typeId = nd'.typeId) (hk : nd.task = nd'.task) (h : ArgsRel cfg mt mt' nd.args nd'.args) :
-    nodeStream cfg mt self nd = nodeStream cfg mt' self nd' := by
+theorem nodeStream_congr_args (cfg : Nat → List Nat) (ceq : Nat → Nat → Bool) (mt mt' : Nat → Option Bool) (self : Nat) (nd nd' : Node)
+    (ht : nd.typeId = nd'.typeId) (hk : nd.task = nd'.task) (h : ArgsRel cfg ceq mt mt' nd.args nd'.args) :
+    nodeStream cfg ceq mt self nd = nodeStream cfg ceq mt' self nd' := by
   simp only [nodeStream, ht, hk, h.sortBy.streams]
 
 /-- inserting an argument that contributes nothing does not change the flattened stream. -/
-theorem flatten_insertBy_nil {cfg mt} (x : Arg) (hx : argStream cfg mt x = []) (l : List Arg) :
-    ((insertBy (fun a b => bytesLe a.name b.name) x l).map (argStream cfg mt)).flatten = (l.map (argStream cfg mt)).flatten := by
+theorem flatten_insertBy_nil {cfg ceq mt} (x : Arg) (hx : argStream cfg ceq mt x = []) (l : List Arg) :
+    ((insertBy (fun a b => bytesLe a.name b.name) x l).map (argStream cfg ceq mt)).flatten = (l.map (argStream cfg ceq mt)).flatten := by
   induction l with
   | nil => simp [XpmVerif.Ident.insertBy, hx]
   | cons y ys ih =>
@@ -57,41 +57,42 @@ theorem flatten_insertBy_nil {cfg mt} (x : Arg) (hx : argStream cfg mt x = []) (
 /-- **adding a parameter** whose value is outside the signature (defaulted, Meta, generated) to a node
     leaves its stream unchanged, wherever the new argument is declared (combine with
     `nodeStream_args_perm`). -/
-theorem nodeStream_add_excluded (cfg : Nat → List Nat) (mt : Nat → Option Bool) (self : Nat) (nd : Node) (a : Arg)
-    (ha : argStream cfg mt a = []) :
-    nodeStream cfg mt self { nd with args := a :: nd.args } = nodeStream cfg mt self nd := by
+theorem nodeStream_add_excluded (cfg : Nat → List Nat) (ceq : Nat → Nat → Bool) (mt : Nat → Option Bool) (self : Nat) (nd : Node) (a : Arg)
+    (ha : argStream cfg ceq mt a = []) :
+    nodeStream cfg ceq mt self { nd with args := a :: nd.args } = nodeStream cfg ceq mt self nd := by
   simp only [nodeStream, XpmVerif.Ident.sortBy, foldr_cons]
   rw [flatten_insertBy_nil a ha]
 
 /-! the skip rules, one by one -/
 
-theorem argStream_of_not_included {cfg mt} (a : Arg) (h : included mt a = false) : argStream cfg mt a = [] := by
+theorem argStream_of_not_included {cfg ceq mt} (a : Arg) (h : included ceq mt a = false) : argStream cfg ceq mt a = [] := by
   simp [argStream, h]
 
 /-- an ignored argument (Meta / Option / Path typed) whose value is not a configuration forced in with
     `meta = False` contributes nothing, whatever its value. -/
-theorem ignored_excluded (mt : Nat → Option Bool) (a : Arg) (hi : a.ignored = true)
-    (hv : ∀ n, a.value = .ref n → mt n ≠ some false) : included mt a = false := by
-  unfold included
+theorem ignored_excluded (ceq : Nat → Nat → Bool) (mt : Nat → Option Bool) (a : Arg) (hi : a.ignored = true)
+    (hv : ∀ n, a.value = .ref n → mt n ≠ some false) : included ceq mt a = false := by
+  unfold included ignoredOut
   cases hval : a.value <;> simp_all
 
-theorem generator_excluded (mt : Nat → Option Bool) (a : Arg) (hg : a.generator = true) : included mt a = false := by
+theorem generator_excluded (ceq : Nat → Nat → Bool) (mt : Nat → Option Bool) (a : Arg) (hg : a.generator = true) :
+    included ceq mt a = false := by
   unfold included; simp [hg]
 
-/-- a non-constant argument whose (meta-filtered) value equals its default contributes nothing. -/
-theorem default_excluded (mt : Nat → Option Bool) (a : Arg) (d : Val) (hc : a.constant = false)
-    (hd : a.default = some d) (he : pyEq d (removeMeta mt a.value) = true) : included mt a = false := by
-  unfold included; simp [hc, hd, he]
+/-- a non-constant argument whose (meta-filtered) value is its default (`_is_default`) contributes nothing. -/
+theorem default_excluded (ceq : Nat → Nat → Bool) (mt : Nat → Option Bool) (a : Arg) (d : Val) (hc : a.constant = false)
+    (hd : a.default = some d) (he : isDefault ceq mt d (removeMeta mt a.value) = true) : included ceq mt a = false := by
+  unfold included defaultOut; simp [hc, hd, he]
 
 /-- an optional argument without default left unset (`None`) contributes nothing. -/
-theorem unset_optional_excluded (mt : Nat → Option Bool) (a : Arg) (hc : a.constant = false)
-    (hr : a.required = false) (hd : a.default = none) (hv : a.value = .none) : included mt a = false := by
-  unfold included; simp [hc, hr, hd, hv]
+theorem unset_optional_excluded (ceq : Nat → Nat → Bool) (mt : Nat → Option Bool) (a : Arg) (hc : a.constant = false)
+    (hr : a.required = false) (hd : a.default = none) (hv : a.value = .none) : included ceq mt a = false := by
+  unfold included defaultOut; simp [hc, hr, hd, hv]
 
 /-- a sub-configuration flagged `meta = True` given as the value of an argument contributes nothing. -/
-theorem meta_value_excluded (mt : Nat → Option Bool) (a : Arg) (n : Nat) (hv : a.value = .ref n)
-    (hm : mt n = some true) : included mt a = false := by
-  unfold included; simp [hv, hm]
+theorem meta_value_excluded (ceq : Nat → Nat → Bool) (mt : Nat → Option Bool) (a : Arg) (n : Nat) (hv : a.value = .ref n)
+    (hm : mt n = some true) : included ceq mt a = false := by
+  unfold included metaOut; simp [hv, hm]
 
 /-- a `meta = True` configuration inside a list is invisible (anywhere in the list). -/
 theorem encItems_drop (cfg mt) (l1 l2 : List Val) (v : Val) (hv : dropped mt v = true) :
